@@ -10,7 +10,7 @@ typedef struct Duration { long v; } Duration;
 
 /* witness abstraction of a std::list of slots (DESIGN 3.2): its length and the positions of the two witness slots
  * g_S[0], g_S[1] (-1: not in this list).  Every other element is anonymous. */
-typedef struct WList { long len; long w[2]; } WList;
+typedef struct WList { long len; long w[2]; struct Mutex *guard; } WList;   /* guard (ghost): the mutex that must be held for structural changes, NULL for thread-local lists */
 typedef struct WIt { WList *l; long i; } WIt;          /* iterator = (list, index) */
 int nondet_int(void);
 _Bool nondet_bool(void);
